@@ -280,6 +280,26 @@ impl<'a> LfnBuffer<'a> {
         // take all the wide chars, up to the null (or go to the end)
         let buffer = &buffer[0..null_idx];
 
+        if buffer.is_empty() {
+            // nothing in this chunk, so nothing changes
+            return;
+        }
+
+        // A low surrogate that started the previous chunk (which comes *later*
+        // in the name) might be the second half of a pair whose first half
+        // ends this chunk.
+        let mut carried = None;
+        if let Some(low) = self.unpaired_surrogate.take() {
+            if matches!(buffer.last(), Some(0xD800..=0xDBFF)) {
+                // It is. Decode the two together, and take back the replacement
+                // character we stored in its place last time.
+                if !self.overflow {
+                    self.free += '\u{fffd}'.len_utf8();
+                }
+                carried = Some(low);
+            }
+        }
+
         // This next part will convert the 16-bit values into chars, noting that
         // chars outside the Basic Multilingual Plane will require two 16-bit
         // values to encode (see UTF-16 Surrogate Pairs).
@@ -289,32 +309,27 @@ impl<'a> LfnBuffer<'a> {
         // 13 values of this chunk plus the unpaired surrogate kept from last time.
         let mut char_vec: heapless::Vec<char, 14> = heapless::Vec::new();
         // Now do the decode, including the unpaired surrogate (if any) from
-        // last time (maybe it has a pair now!)
+        // last time
         let mut is_first = true;
-        for ch in char::decode_utf16(
-            buffer
-                .iter()
-                .cloned()
-                .chain(self.unpaired_surrogate.take().iter().cloned()),
-        ) {
+        for ch in char::decode_utf16(buffer.iter().cloned().chain(carried)) {
             match ch {
                 Ok(ch) => {
                     char_vec.push(ch).expect("Vec was full!?");
                 }
                 Err(e) => {
                     // OK, so we found half a surrogate pair and nothing to go
-                    // with it. Was this the first codepoint in the chunk?
-                    if is_first {
-                        // it was - the other half is probably in the next chunk
-                        // so save this for next time
-                        trace!("LFN saved {:?}", e.unpaired_surrogate());
-                        self.unpaired_surrogate = Some(e.unpaired_surrogate());
-                    } else {
-                        // it wasn't - can't deal with it these mid-sequence, so
-                        // replace it
-                        trace!("LFN replaced {:?}", e.unpaired_surrogate());
-                        char_vec.push('\u{fffd}').expect("Vec was full?!");
+                    // with it. Was this a low surrogate at the start of the chunk?
+                    let unit = e.unpaired_surrogate();
+                    if is_first && (0xDC00..=0xDFFF).contains(&unit) {
+                        // it was - the other half might be at the end of the
+                        // next chunk, so remember it for next time
+                        trace!("LFN saved {:?}", unit);
+                        self.unpaired_surrogate = Some(unit);
                     }
+                    // Until (and unless) it finds its other half it is shown as
+                    // a replacement character, like any other unpaired surrogate
+                    trace!("LFN replaced {:?}", unit);
+                    char_vec.push('\u{fffd}').expect("Vec was full?!");
                 }
             }
             is_first = false;
